@@ -132,6 +132,22 @@ theorem setRoleManager_spec (e : Enforcer) (hb : e.autoBuild = true) :
     · intro gf hgf; rw [hgf]; simp only [Option.map_some]
       exact ⟨by simp, fun x hx => List.mem_append.mpr (Or.inr hx)⟩
 
+/-- **a handed-over manager's previous content is irrelevant** (auto-build on): whatever links the manager
+given to `set_role_manager` still holds — a fresh one, or a kept handle that went stale while detached —
+the enforcer afterwards is the same, as long as the hierarchy limit is the same -/
+theorem setRoleManagerWith_content_irrelevant (e : Enforcer) (hb : e.autoBuild = true) (r1 r2 : RoleMgr String)
+    (hm : r1.maxLevel = r2.maxLevel) :
+    e.setRoleManagerWith r1 = e.setRoleManagerWith r2 := by
+  unfold Enforcer.setRoleManagerWith
+  simp only [hb, if_true, Enforcer.buildRoleLinks]
+  rw [buildRoleLinks_congr r1 r2 e.store.g hm]
+
+/-- in particular handing back a stale handle is the same as installing a fresh manager -/
+theorem setRoleManagerWith_eq_fresh (e : Enforcer) (hb : e.autoBuild = true) (r : RoleMgr String) (hm : r.maxLevel = 10) :
+    e.setRoleManagerWith r = e.setRoleManager := by
+  rw [setRoleManagerWith_content_irrelevant e hb r (RoleMgr.new 10) (by simp [hm, RoleMgr.new])]
+  rfl
+
 /-! ### Non-vacuity and the regression witness for the repaired defect (F11) -/
 def aclStore : Store := ⟨[{ key := "p", tokens := ["p_sub"], arity := 0, policy := [] }], []⟩
 def rbacStore : Store := ⟨[{ key := "p", tokens := ["p_sub"], arity := 0, policy := [] }],
